@@ -71,6 +71,7 @@ func (m *MemDBV2) Store(ctx context.Context, duty core.Duty, set core.SignedData
 	for pubKey, data := range set {
 		subcommIdx, err := core.SyncSubcommitteeIndex(duty.Type, data)
 		if err != nil {
+			m.wakeReadersUnsafe() // Entries stored before the failing one must still wake their readers.
 			return err
 		}
 
